@@ -1,0 +1,15 @@
+//go:build verif
+
+// Package verifhook provides yield points for the verification harness.
+// It is only active when built with the "verif" build tag.
+package verifhook
+
+// Sched, when non-nil, is called at every yield point with the point's name.
+var Sched func(point string)
+
+// Yield marks a point immediately before an atomic access of lock-free code.
+func Yield(point string) {
+	if Sched != nil {
+		Sched(point)
+	}
+}
